@@ -651,3 +651,184 @@ def opsRunProgram (c : Case) (modName : String) : String × List String :=
   (body, lines.map (·.2))
 
 end DX
+
+namespace DX
+
+/-! ## Debug and Default: expected text from `Sem/Basic.lean` (`evalDebug`) and from the structured `DefaultImpl` -/
+
+def l2PreludeFmt : String := "#![allow(dead_code, unused_imports, unused_variables, unused_mut, non_snake_case, non_camel_case_types)]
+use derive_ex::{derive_ex, Ex};
+/// prints its value and the formatter flags it was called with
+pub struct D(pub u32);
+impl std::fmt::Debug for D {
+    fn fmt(&self, f: &mut std::fmt::Formatter) -> std::fmt::Result {
+        write!(f, \"D{}{}{}\", self.0, if f.alternate() { \"#\" } else { \"\" }, match f.width() { Some(w) => format!(\"w{}\", w), None => String::new() })
+    }
+}
+/// a field type for Default: its own default is distinguishable from every explicit value
+#[derive(Debug, PartialEq)]
+pub struct V(pub i32);
+impl Default for V { fn default() -> Self { V(-7) } }
+impl From<&str> for V { fn from(s: &str) -> Self { V(s.len() as i32 + 100) } }
+impl From<K> for V { fn from(k: K) -> Self { V(k.0 + 200) } }
+pub struct K(pub i32);
+pub const K5: K = K(5);
+pub mod m { pub const K6: super::K = super::K(6); }
+pub fn esc(s: String) -> String { s.replace('\\n', \"/\") }
+"
+
+/-- Lean twin of `D`'s Debug impl -/
+def dFmt (alt : Bool) (width : Option Nat) (x : Nat) : String :=
+  s!"D{x}" ++ (if alt then "#" else "") ++ (match width with | some w => s!"w{w}" | none => "")
+
+/-- what `Formatter::debug_struct / debug_tuple … finish` prints for a trace of builder calls (field values on one
+line each); the `{:#?}` form indents every field by four blanks and ends each with a comma -/
+def renderDebugTrace (alt : Bool) (fieldStr : Nat → String) (tr : List DebugEv) : String :=
+  match tr with
+  | [.delegate i] => fieldStr i
+  | .debugStruct name :: rest =>
+    let fs := rest.filterMap fun | .namedField n i => some (n, i) | _ => none
+    if fs.isEmpty then name
+    else if alt then name ++ " {\n" ++ String.join (fs.map fun (n, i) => s!"    {n}: {fieldStr i},\n") ++ "}"
+    else name ++ " { " ++ ", ".intercalate (fs.map fun (n, i) => s!"{n}: {fieldStr i}") ++ " }"
+  | .debugTuple name :: rest =>
+    let fs := rest.filterMap fun | .field i => some i | _ => none
+    if fs.isEmpty then name
+    else if alt then name ++ "(\n" ++ String.join (fs.map fun i => s!"    {fieldStr i},\n") ++ ")"
+    else name ++ "(" ++ ", ".intercalate (fs.map fun i => fieldStr i) ++ ")"
+  | _ => "?"
+
+/-- a random Debug item over `D` fields with `#[debug(ignore)]` / `#[debug(transparent)]` -/
+def genDebugRunCase (seed idx : Nat) : Case := runGen seed idx do
+  let isEnum ← chance 1 2
+  let useDerive ← chance 1 3
+  let args : Args := { items := [{ trait_ := "Debug" }] }
+  let raw ← chance 1 6
+  let dF (n : Nat) (kind : FieldsKind) : Gen Fields := do
+    let transparentAt ← if n > 0 && (← chance 1 5) then (do pure (some (← below n))) else pure none
+    let fs ← (List.range n).mapM fun i => do
+      let ign ← chance 1 4
+      let attrs : List Attr :=
+        if transparentAt == some i then [.debug (.list { transparent := true })]
+        else if ign && transparentAt.isNone then [.debug (.list { ignore := true })] else []
+      let nm := if raw && i == 0 then "r#type" else ["a", "b", "c", "d"].getD i "z"
+      pure ({ attrs, name := if kind == .named then some nm else none, ty := Ty.simple "D" } : Field)
+    pure { kind, fields := fs }
+  let attrs := if useDerive then [Attr.deriveEx args] else []
+  let item ← (do
+    if isEnum then
+      let nv ← pickW [(1, 1), (3, 2), (3, 3)]
+      let vs ← (List.range nv).mapM fun i => do
+        let k ← pickW [(2, FieldsKind.unit), (3, .unnamed), (3, .named)]
+        let n ← if k == .unit then pure 0 else pickW [(1, 0), (3, 1), (3, 2), (2, 3)]
+        let fields ← if k == .unit then pure { kind := .unit } else dF n k
+        pure ({ name := (if raw && i == 0 then "r#A" else ["A", "B", "C"].getD i "Z"), fields } : Variant)
+      pure (Item.enum_ { attrs, name := "X", variants := vs })
+    else
+      let k ← pickW [(1, FieldsKind.unit), (3, .unnamed), (3, .named)]
+      let n ← if k == .unit then pure 0 else pickW [(1, 0), (2, 1), (3, 2), (2, 3), (1, 4)]
+      let fields ← if k == .unit then pure { kind := .unit } else dF n k
+      pure (Item.struct_ { attrs, name := (if raw then "r#X" else "X"), fields }))
+  pure { id := s!"debugRun/{seed}/{idx}", tags := [s!"enum={isEnum}", s!"raw={raw}"],
+         entry := if useDerive then .derive else .attr args, item }
+
+def debugImplOf (c : Case) : Option DebugImpl :=
+  (allGenImpls c).findSome? fun | .debug d => some d | _ => none
+
+def debugRunProgram (c : Case) (modName : String) : String × List String :=
+  match debugImplOf c with
+  | some d =>
+    let nv := match c.item with | .enum_ e => e.variants.length | _ => 1
+    let tyName := match c.item with | .struct_ s => s.name | .enum_ e => e.name | _ => "X"
+    let vals : List (Nat × List Nat) := (List.range nv).map fun v =>
+      let n := (shapeFields c.item v).fields.length
+      (v, (List.range n).map fun i => 10 * v + i + 1)
+    let ctor (p : Nat × List Nat) := (ctorWith c.item p.1 (p.2.map fun x => s!"D({x})"))
+    let specs : List (String × Bool × Option Nat) := [("{:?}", false, none), ("{:#?}", true, none), ("{:7?}", false, some 7), ("{:#3?}", true, some 3)]
+    let body :=
+      s!"pub mod {modName} \{ use super::*;\n{rustItem c}\npub fn run() \{\n" ++
+      String.join (vals.flatMap fun p => specs.map fun (sp, _, _) =>
+        s!" println!(\"{modName} dbg \{}\", esc(format!(\"{sp}\", {ctor p})));\n") ++
+      "}\n}\n"
+    let _ := tyName
+    let exp := vals.flatMap fun p => specs.map fun (_, alt, w) =>
+      let tr := evalDebug d p.1
+      -- the builders hand the formatter (flags and width included) on to every field, as a transparent field receives it;
+      -- the name and the punctuation are written with `write_str` and ignore the width
+      let fieldStr (i : Nat) : String := dFmt alt w (p.2.getD i 0)
+      let txt := renderDebugTrace alt fieldStr tr
+      s!"{modName} dbg {txt.replace "\n" "/"}"
+    (body, exp)
+  | none => ("", [])
+
+/-! ### Default -/
+
+/-- explicit default values with the text `V`'s Debug prints for them (after the conversion the model prescribes) -/
+def defaultValuePool : List (Toks × ExprClass × String) :=
+  [(["V", "(", "3", ")"], .other, "V(3)"), (["\"abc\""], .strLit, "V(103)"), (["K5"], .path, "V(205)"),
+   (["m", "::", "K6"], .path, "V(206)"), (["V", "(", "1", "+", "1", ")"], .other, "V(2)"),
+   (["{", "V", "(", "9", ")", "}"], .other, "V(9)"), (["(", "V", "(", "4", ")", ")"], .other, "V(4)")]
+
+def genDefaultRunCase (seed idx : Nat) : Case := runGen seed idx do
+  let isEnum ← chance 1 2
+  let useDerive ← chance 1 3
+  let args : Args := { items := [{ trait_ := "Default" }] }
+  let vF (n : Nat) (kind : FieldsKind) : Gen Fields := do
+    let fs ← (List.range n).mapM fun i => do
+      let st ← below 10
+      let attrs ← (if st < 4 then (do
+            let (e, cls, _) ← pick defaultValuePool
+            pure [Attr.dflt (.list { value := some (e, cls) })])
+          else if st == 4 then pure [Attr.dflt .path]
+          else if st == 5 then pure [Attr.dflt (.list { value := some (["_"], .underscore) })]
+          else pure ([] : List Attr))
+      pure ({ attrs, name := if kind == .named then some (["a", "b", "c", "d"].getD i "z") else none, ty := Ty.simple "V" } : Field)
+    pure { kind, fields := fs }
+  let attrs := if useDerive then [Attr.deriveEx args] else []
+  let item ← (do
+    if isEnum then
+      let nv ← pickW [(2, 1), (3, 2), (3, 3)]
+      let dv ← below nv
+      let vs ← (List.range nv).mapM fun i => do
+        let k ← pickW [(2, FieldsKind.unit), (3, .unnamed), (3, .named)]
+        let n ← if k == .unit then pure 0 else pickW [(1, 0), (3, 1), (3, 2), (2, 3)]
+        let fields ← if k == .unit then pure { kind := .unit } else vF n k
+        let mark ← if i == dv && (nv > 1 || (← chance 1 2)) then
+            pick [[Attr.dflt .path], [Attr.dflt (.list { value := some (["_"], .underscore) })]]
+          else pure []
+        pure ({ attrs := mark, name := ["A", "B", "C"].getD i "Z", fields } : Variant)
+      pure (Item.enum_ { attrs, name := "X", variants := vs })
+    else
+      let k ← pickW [(1, FieldsKind.unit), (3, .unnamed), (3, .named)]
+      let n ← if k == .unit then pure 0 else pickW [(1, 0), (2, 1), (3, 2), (2, 3), (1, 4)]
+      let fields ← if k == .unit then pure { kind := .unit } else vF n k
+      pure (Item.struct_ { attrs, name := "X", fields }))
+  pure { id := s!"defaultRun/{seed}/{idx}", tags := [s!"enum={isEnum}"], entry := if useDerive then .derive else .attr args, item }
+
+def defaultImplOf (c : Case) : Option DefaultImpl :=
+  (allGenImpls c).findSome? fun | .dflt d => some d | _ => none
+
+/-- the text `{:?}` prints for the value the structured `DefaultImpl` denotes -/
+def defValText : DefVal → String
+  | .dflt _ => "V(-7)"
+  | .raw e => ((defaultValuePool.find? fun (t, _, _) => t == e).map (·.2.2)).getD "?"
+  | .into _ e => ((defaultValuePool.find? fun (t, _, _) => t == e).map (·.2.2)).getD "?"
+
+def defaultRunProgram (c : Case) (modName : String) : String × List String :=
+  match defaultImplOf c with
+  | some d =>
+    let body := s!"pub mod {modName} \{ use super::*;\n#[derive(Debug)] {rustItem c}\npub fn run() \{ println!(\"{modName} default \{:?}\", <X as Default>::default()); }\n}\n"
+    let txt := match d.body with
+      | .value v => defValText v
+      | .ctor path src vals =>
+        let name := (path.getLast?).getD "X"
+        let strs := vals.map defValText
+        match src.kind with
+        | .unit => name
+        | .unnamed => if strs.isEmpty then name else name ++ "(" ++ ", ".intercalate strs ++ ")"
+        | .named => if strs.isEmpty then name else
+            name ++ " { " ++ ", ".intercalate ((src.fields.zip strs).map fun (p : Field × String) => s!"{p.1.name.getD "_"}: {p.2}") ++ " }"
+    (body, [s!"{modName} default {txt}"])
+  | none => ("", [])
+
+end DX
